@@ -69,6 +69,8 @@ func scenarios(tier string) []svc.Scenario {
 		{Name: "extension-only-capture", Program: []string{"import:P1+P2", "import:P6", "view.open:v1", "import:P4", "view.open:v2"}},
 		// a client reads converter output through a view that was opened before an import extended the stream
 		{Name: "converter-data-through-held-view", Converter: true, Program: []string{"import:P1", "addtag:tag/p=cport:1", "view.open:v1", "converters:tag/p=conv", "import:P3", "view.data:v1=0/conv"}},
+		// a tag that uses a mark list inside a sub-query: a mark edit changes its answer for OTHER streams than the marked ones
+		{Name: "subquery-mark-tag", Program: []string{"import:P1+P2", "addtag:mark/m=id:0", "addtag:tag/t=@sub:mark:m id:@sub:id@+1", "markadd:mark/m=1", "markdel:mark/m=0"}},
 		{Name: "two-tags", Program: []string{"addtag:tag/p=cport:1", "addtag:tag/d=cdata:foo3", "import:P1", "import:P3"}},
 	}
 	if tier == "thorough" {
